@@ -96,6 +96,34 @@ CHECKS = {
             "setting; TLC (Trace_C01) reads the INPUT tokens itself and compares every typed field, the expanded "
             "networks and the meaning / nativeness / switch conformance of the rendered line.",
             "7 (C01)"),
+    "C02": ("model_checking",
+            "TLA+ spec of the ACL as an ordered rule list with its public operations (AclSem over AceSem/AceText/Reseq) model-checked by TLC on a small universe with every packet evaluated; histories of public calls on ONE live Acl object validated step by step by TLC (Trace_Acl) at full size",
+            "TLC checks on all rule lists of <= 3 (quick) / 4 (thorough) items over an alphabet with duplicates, covers, multi-port eq/neq entries, a group with members, headings and remarks that the conversion function (port splitting + respelling + regrouping) preserves every packet's decision; seeded histories dominated by platform changes in both directions (there, back, there again) on full-size ACLs are replayed on one live object and TLC predicts each post-state from the observed pre-state: same entries and meaning in order (split entries adjacent), remarks, numbers, name, group members, identifiers and notes kept, every rendered line read back by the specification's own reader must mean what the fields say and be native syntax of the target platform.",
+            "7 (C02)"),
+    "C04": ("model_checking",
+            "TLA+ spec of the ACL as an ordered rule list with its public operations (AclSem over AceSem/AceText/Reseq) model-checked by TLC on a small universe with every packet evaluated; histories of public calls on ONE live Acl object validated step by step by TLC (Trace_Acl) at full size",
+            "TLC proves on the small universe that removing the shadowed entries changes no packet's decision, removes only ACEs, keeps order and is idempotent; on full-size histories TLC checks that the result is the original list with entries removed, every removed entry is an ACE covered (symbolic exact cover, proved equal to packet-set containment by MC_AceSem) by an earlier entry of the same action, every reported entry was removed and is sound, remarks / numbers / grouping of the rest are untouched, the report equals shading() just before, and a second removal finds nothing.",
+            "7 (C04)"),
+    "C11": ("model_checking",
+            "TLA+ spec of the ACL as an ordered rule list with its public operations (AclSem over AceSem/AceText/Reseq) model-checked by TLC on a small universe with every packet evaluated; histories of public calls on ONE live Acl object validated step by step by TLC (Trace_Acl) at full size",
+            "Pair level as C03 plus exactness: for group-free entries with non-empty port sets the answer equals symbolic exact cover and not a skipped kind, for every skip subset (lemma L_LibExact over all pairs x packets). Report level: histories of shading()/shadow_of() on group-free lists; every reported pair must be a real shadow and, when the lines are distinct, the report must equal the first-top attribution computed by AclSem.",
+            "7 (C11)"),
+    "C15": ("model_checking",
+            "TLA+ spec of the ACL as an ordered rule list with its public operations (AclSem over AceSem/AceText/Reseq) model-checked by TLC on a small universe with every packet evaluated; histories of public calls on ONE live Acl object validated step by step by TLC (Trace_Acl) at full size",
+            "TLC proves on the small universe that grouping/ungrouping conserve the entries (and order and decisions when headings are distinct) and the TCAM estimate; histories of group / ungroup / sort / permute / reverse / resequence / tcam_count / in-place re-pointing of group addresses are replayed on a live object and TLC predicts the post-state (bucket structure, entry order, identities) and the estimate.",
+            "7 (C15)"),
+    "C16": ("model_checking",
+            "TLA+ spec of the ACL as an ordered rule list with its public operations (AclSem over AceSem/AceText/Reseq) model-checked by TLC on a small universe with every packet evaluated; histories of public calls on ONE live Acl object validated step by step by TLC (Trace_Acl) at full size",
+            "Histories with copy() and Acl(**data()) followed by mutations of the twin (platform, resequence, pop, notes, members, ports, line, shadow removal, sort) and in-place transformations of the source: TLC checks equality of the twin (entries, numbers, structure, settings, text, data digest, notes), disjoint identifiers, no shared mutable sub-object (identity scan by the harness), an unchanged source after every twin mutation, and identifier / note stability of every entry an in-place transformation does not replace by a split.",
+            "7 (C16)"),
+    "C17": ("model_checking",
+            "TLA+ spec of the ACL as an ordered rule list with its public operations (AclSem over AceSem/AceText/Reseq) model-checked by TLC on a small universe with every packet evaluated; histories of public calls on ONE live Acl object validated step by step by TLC (Trace_Acl) at full size",
+            "Random histories of 2..25 operations over the whole alphabet (platform, switches, resequence, group/ungroup, sort/reverse/permute/insert/append/pop, in-place edits, copy, export-import, re-parse, shading, shadow removal, port splitting, tcam, notes) on one live object; after every step TLC checks internal consistency (every rendered line read back by the specification means what the typed fields say, is native, carries the number; the ACL text is header + entry lines and parses back to itself) and that the post-state is the one the reference model predicts from the observed pre-state; this check owns the clauses of all operation properties.",
+            "7 (C17)"),
+    "C19": ("model_checking",
+            "TLA+ spec of the ACL as an ordered rule list with its public operations (AclSem over AceSem/AceText/Reseq) model-checked by TLC on a small universe with every packet evaluated; histories of public calls on ONE live Acl object validated step by step by TLC (Trace_Acl) at full size",
+            "TLC proves on the small universe that splitting keeps every packet's decision when no multi-port neq is involved (and that the multi-port neq split does change a decision: deviation run); histories dominated by ungroup_ports() and conversion to NX-OS on IOS lists with eq/neq entries of 1..4 ports (incl. a port listed twice) are validated: split entries stand where the original stood in source-major order with one port per side and every other field kept, untouched entries keep their identity; a split of a multi-port neq is reported as the known finding F1.",
+            "7 (C19)"),
 }
 
 NOT_YET = {
